@@ -1040,12 +1040,15 @@ GenConstraint ==
 (* Clauses in checkable form *)
 Inv_C07_DepositEscrow == C07_DepositEscrow(st)
 Inv_C07_RequestEscrow == C07_RequestEscrow(st)
-Inv_C07_RequestEscrow_ModF4 == C07_RequestEscrow_ModF4(st, gh)
+(* clauses that read ghosts are action properties over (st', gh'): under the
+   ghost-free VIEW TLC evaluates state invariants only for the first path that
+   reaches a state, action properties on every transition *)
+Act_C07_RequestEscrow_ModF4 == [][C07_RequestEscrow_ModF4(st', gh')]_vars
 Inv_C07_OwnerTally == C07_OwnerTally(st)
 Inv_C13_QueueSound == C13_QueueSound(st)
-Inv_C13_QueueSound_ModF20 == C13_QueueSound_ModF20(st, gh)
+Act_C13_QueueSound_ModF20 == [][C13_QueueSound_ModF20(st', gh')]_vars
 Inv_C13_QueueComplete == C13_QueueComplete(st)
-Inv_C13_NoHalt == C13_NoHalt(ev)
+Act_C13_NoHalt == [][C13_NoHalt(ev')]_vars
 
 Act_C07_Charge == [][C07_Charge(st, ev', st')]_vars
 Act_C07_Charge_ModF4 == [][C07_Charge_ModF4(st, ev', st')]_vars
